@@ -4,7 +4,7 @@
 From Coq Require Import List String Ascii Arith Bool Lia.
 From PC Require Import Base.Codes Comp.Syntax Comp.Compile Comp.Denote Comp.EmitProofs Comp.CompileProofs Comp.OrderProofs Comp.WfPil
   Design.Designer Design.DGraph Design.DenoteGraph Design.DenoteTie Design.DenoteSat Design.Results Design.ResultsProofs
-  Design.LoadProofs Design.Loaded Design.ShapeProofs Design.ComposeProofs Design.SeedTotal Design.CrossProofs Finish.Apply Finish.ApplyProofs.
+  Design.LoadProofs Design.Loaded Design.StructTotal Design.LoadedStruct Design.ShapeProofs Design.ComposeProofs Design.SeedTotal Design.CrossProofs Finish.Apply Finish.ApplyProofs.
 Import ListNotations.
 Local Open Scope list_scope.
 
@@ -189,3 +189,31 @@ Proof. intros COMP VT. destruct (CrossProofs.compiled_component_designs ctr pref
   destruct (SeedTotal.seed_total (emit_comp c) p LOAD) as [g SEED]. exists p, (build_layout p false), g. split; [exact LOAD | split; [exact SEED|]].
   destruct (loaded_total (emit_comp c) p _ g LOAD SEED) as [O|[e [w [s A]]]]; [left; exact O|]. right. exists e, w, s. split; [exact A|].
   intros nts F. apply (compiled_design_finishes ctr prefix d body c ctr' p _ g e w s nts COMP LOAD SEED A F). Qed.
+
+(* the same chain when the designer lays the arrays out structure by structure *)
+Theorem compiled_design_finishes_struct ctr prefix d body c ctr' p lay g e w s nts :
+  compile_comp ctr prefix d body = OK (c, ctr') ->
+  load_spec (emit_comp c) pspec0 = OK p -> seed p true = OK (lay, g) -> get_constraints p true = DOk e w s -> fits nts e w ->
+  exists a recs, process_results p lay nts = OK a /\ output_records p a = OK recs /\
+    (NoDup (map fst recs) -> exists f, apply_comp (table_of recs) c = OK f).
+Proof. intros COMP LOAD SEED ARR FITS. destruct (compile_comp_inv _ _ _ _ _ _ COMP) as [W [W2 _]].
+  destruct (sloaded_design_results_ok (emit_comp c) p lay g nts LOAD SEED e w s ARR FITS) as [a [recs [PR [OR [RA [RB RC]]]]]].
+  exists a, recs. split; [exact PR | split; [exact OR|]]. intros ND. apply apply_comp_complete.
+  - intros n b Hin NZ. apply (finish_H1 c W p LOAD recs ND RA n b Hin NZ).
+  - intros vals VALS n u Hin. apply (finish_H2 c W W2 p LOAD lay nts a recs ND RB RC vals VALS n u Hin). Qed.
+
+Theorem compiled_component_end_to_end_struct ctr prefix d body c ctr' :
+  compile_comp ctr prefix d body = OK (c, ctr') ->
+  (forall n b, In (n, b) (c_bases c) -> valid_template (b_const b) = true) ->
+  exists p, load_spec (emit_comp c) pspec0 = OK p /\
+    (placed p -> exists g, seed p true = OK (build_layout p true, g) /\
+      (get_constraints p true = DOver \/
+       exists e w s, get_constraints p true = DOk e w s /\
+         forall nts, fits nts e w ->
+           exists a recs, process_results p (build_layout p true) nts = OK a /\ output_records p a = OK recs /\
+             (NoDup (map fst recs) -> exists f, apply_comp (table_of recs) c = OK f))).
+Proof. intros COMP VT. destruct (CrossProofs.compiled_component_designs ctr prefix d body c ctr' COMP VT) as [[p LOAD] _].
+  exists p. split; [exact LOAD|]. intros PL.
+  destruct (seed_total_struct p (load_spec_LI _ _ p LI_empty LOAD) (load_spec_LB _ _ p LB_empty LOAD) PL) as [g SEED]. exists g. split; [exact SEED|].
+  destruct (sloaded_total (emit_comp c) p _ g LOAD SEED) as [O|[e [w [s A]]]]; [left; exact O|]. right. exists e, w, s. split; [exact A|].
+  intros nts F. apply (compiled_design_finishes_struct ctr prefix d body c ctr' p _ g e w s nts COMP LOAD SEED A F). Qed.
